@@ -359,6 +359,7 @@ theorem step_conserves (s : State) (op : Op) (hop : isSpecial op = false) :
   all_goals first
     | exact conserves_query _ _ _ _
     | exact conserves_same _ _ _ _ rfl
+    | exact conserves_same _ _ _ _ (writeFile_root _ _ _)
     | exact conserves_setAt _ _ _ (keeps_setInt _ _)
     | exact conserves_setAt _ _ _ (keeps_setInt64 _ _)
     | exact conserves_setAt _ _ _ (keeps_setBool _)
